@@ -45,7 +45,7 @@ def trim_trivial_operator(qu_op: QubitOperator, trim_states: Dict[int, int],
         term = pauli_of_to_string(op, n_qubits)
         c = np.ones(len(trim_states))
         new_term = term
-        for i, qubit in enumerate(trim_states.keys()):
+        for i, qubit in enumerate(sorted(trim_states.keys())):
             if term[qubit] in {'X', 'Y'}:
                 c[i] = 0
                 break
